@@ -218,7 +218,7 @@ impl Check for C02 {
         stop_z3_server();
     }
     fn shard_timeout_s(&self, tier: Tier) -> u64 {
-        tier.pick(600, 4 * 3600)
+        tier.pick(1800, 6 * 3600)
     }
     fn nshards(&self, _tier: Tier) -> u64 {
         // process start-up, not CPU, limits the throughput of the solver-backed checks in this sandbox
